@@ -151,3 +151,74 @@ def rt_declfwd(req):
 
 
 RT = {'declfwd': rt_declfwd}
+
+
+# ----------------------------------------------------------------------------- C19: partials of forwarding wrappers
+_PF_TEMPLATES = {
+    # callee passed positionally: discovery looks through the partial using the bound positional
+    'posparam': 'def w(cb, *args, **kwargs):\n    return cb(*args, **kwargs)\n',
+    # callee is a defaulted keyword-only parameter that the partial does NOT bind: nothing may be resolved
+    'kwdefault': 'def w(a, *args, target=DEFAULT, **kwargs):\n    return target(*args, **kwargs)\n',
+    # callee bound by keyword: keywords do not resolve callee parameters
+    'kwbound': 'def w(a, *args, target=DEFAULT, **kwargs):\n    return target(*args, **kwargs)\n',
+}
+
+
+def rt_partialfwd(req):
+    """signatures of functools.partial objects over wrappers that forward to one of their own parameters:
+    every non-colliding call the reported signature accepts must run; when the callee is not bound positionally the
+    signature is the plain one of the partial; the partial object has depth 0"""
+    import functools
+    from . import oracles as O
+    _, tmpl, cps, dps, extra = req
+    src = ['import functools']
+    src += core.def_source(cps, name='callee', body='return ("callee",)').rstrip('\n').split('\n')
+    src += core.def_source(dps, name='DEFAULT', body='return ("default",)').rstrip('\n').split('\n')
+    src += _PF_TEMPLATES[tmpl].rstrip('\n').split('\n')
+    if tmpl == 'posparam':
+        src += ['p = functools.partial(w, callee%s)' % ''.join(', %d' % (700 + i) for i in range(extra))]
+    elif tmpl == 'kwdefault':
+        src += ['p = functools.partial(w, 1%s)' % ''.join(', %d' % (700 + i) for i in range(extra))]
+    else:
+        src += ['p = functools.partial(w, 1, target=callee)']
+    text = '\n'.join(src) + '\n'
+    mod, fname = progs.load_module(text)
+    problems = []
+    try:
+        with warnings.catch_warnings():
+            warnings.simplefilter('ignore')
+            try:
+                sig = sigtools.signature(mod.p)
+            except Exception as e:  # noqa
+                return ('ok', ('partialfwd-raises: sigtools.signature(partial) raised %s: %s\n%s' % (type(e).__name__, e, text),), 'raised')
+            plain = signatures.signature(mod.p)
+        if tmpl != 'posparam' and str(sig) != str(plain):
+            problems.append('partialfwd-resolved-unbound: the callee is not bound positionally, yet sigtools.signature(p) = %s differs from '
+                            'signatures.signature(p) = %s\n%s' % (sig, plain, text))
+        d = sig.sources['+depths'].get(mod.p)
+        if d != 0:
+            problems.append('partialfwd-depth: the partial object has depth %r\n%s' % (d, text))
+        R = [(q.name, core.KIND_NAME[q.kind], None if q.default is q.empty else 1) for q in sig.parameters.values()]
+        ins = [[(q[0], q[1], q[2]) for q in cps], [(q[0], q[1], q[2]) for q in dps],
+               [('a', 'pk', None), ('cb', 'pk', None), ('args', 'vp', None), ('target', 'ko', 1), ('kwargs', 'vk', None)]]
+        ran = 0
+        if str(sig) == str(plain):
+            # nothing was discovered: what the callee does with the forwarded arguments is outside the claim
+            return ('ok', tuple(problems[:2]), 'plain')
+        for m, K in O.shapes_for(ins + [R], foreign=('zz',), maxk=2):
+            if not O.non_colliding(R, ins, K) or not O.acc(R, m, K):
+                continue
+            ran += 1
+            kw = {k: (mod.callee if k == 'target' else 0) for k in K}
+            try:
+                mod.p(*([0] * m), **kw)
+            except TypeError as e:
+                problems.append('partialfwd-unsound: sigtools.signature(p) = %s accepts (%d,%s) but calling the partial raises TypeError: %s\n%s' % (
+                    sig, m, K, e, text))
+                break
+        return ('ok', tuple(problems[:2]), 'executed:%d' % ran)
+    finally:
+        progs.unload(fname)
+
+
+RT['partialfwd'] = rt_partialfwd
